@@ -327,7 +327,7 @@ class C15(Check):
             yield enc_case(c), "usage-small"
         for line in fp_exhaustive(tier):
             yield line, "fp-exh"
-        NU = 1500 if tier == "quick" else 30000
+        NU = 4000 if tier == "quick" else 40000
         for i in range(NU):
             k2 = (i % 25 == 7)
             c = gen_usage_case(rng, k2)
@@ -337,7 +337,7 @@ class C15(Check):
                 yield line, "usage-k2"
             else:
                 yield line, "usage-rand"
-        NF = 6000 if tier == "quick" else 200000
+        NF = 15000 if tier == "quick" else 200000
         for _ in range(NF):
             yield gen_fp_case(rng), "fp-rand"
 
